@@ -309,6 +309,9 @@ fn main() {
          x scale x alpha x intercept, in standard and one non-standard layout (all n training rows are also prediction queries); (d) BUILDER HISTORY - every order of the setters (logistic: alpha, with_intercept, max_iterations, gradient_tolerance, initial_params = 120 orders; Tweedie: alpha, fit_intercept, power, link, max_iter, tol = 720 orders) \
          x {plain, every field first written with a decoy value} x constructors {default, new (, params)} on 2 binary, 2 multinomial and 6 Tweedie problems: the parameter object must equal (PartialEq and Debug) that of the canonical history / the checked Tweedie getters must publish the final logical set, \
          and the fit must be bit-identical to the canonical history's (Tweedie: for every 24th / 3rd order); additionally EVERY fitted binary / multinomial model is called through predict_inplace on a buffer pre-filled with wrong classes, with C::default(), and reused from a previous batch, and through MultiTargetModel; Tweedie predict_inplace on a NaN-filled buffer. \
+         (e) ROUTING - every non-empty subset of the setters NOT called at all (63 Tweedie x power, 31 logistic subsets), judged against the documented defaults (Tweedie link: identity for power <= 0, log otherwise); \
+         target arrays as reversed view / stepped view with wrong-class filler / owned array with stride -1, label naming through DatasetBase::map_targets next to building the dataset with the names, feature scale 0.125, \
+         12-sample problems with 4, 5, 7, 9 features incl. a reversed feature axis; every fitted model is also called through predict(owned array), predict(owned dataset), predict(&dataset), predict(&dataset of a view) and on a one-row batch. \
          (c) F32 - every labeling of two 6-point lattices (binary), every 5th / every partition (multinomial), every 27th / 5th target (Tweedie) at scale 1 with f32 records, parameters and predictions.",
     );
     ctx.assume("documented objectives (rustdoc of logistic_loss / multi_logistic_loss / TweedieProblem::cost): binary -sum_i log sigm(y_i z_i) + alpha/2 w.w; multinomial -sum(Y*log softmax(XW+b)) + alpha/2 ||W||_F^2; Tweedie 1/2 (sum_i unit_deviance(y_i, mu_i) + alpha w.w) with the textbook unit deviance the comments in distribution.rs quote; sums not means; the intercept is never penalised");
@@ -388,7 +391,7 @@ fn main() {
                                 retry_max_iter: RETRY_MAX_ITER,
                                 order: oname.to_string(),
                                 scale,
-                                n_rows: None, fit_layout: std_layout(), query_layout: std_layout(), float: f64_name(), setter_order: None, decoys: false, ctor: default_ctor(),
+                                n_rows: None, fit_layout: std_layout(), query_layout: std_layout(), float: f64_name(), setter_order: None, decoys: false, ctor: default_ctor(), skip_setters: vec![], target_layout: std_layout(), naming_via_map_targets: false,
                             });
                             let mut v = Vec::new();
                             let o = run_case(&case, &mut v);
@@ -476,7 +479,7 @@ fn main() {
                             retry_max_iter: RETRY_MAX_ITER,
                             order: oname.to_string(),
                             scale,
-                            n_rows: None, fit_layout: std_layout(), query_layout: std_layout(), float: f64_name(), setter_order: None, decoys: false, ctor: default_ctor(),
+                            n_rows: None, fit_layout: std_layout(), query_layout: std_layout(), float: f64_name(), setter_order: None, decoys: false, ctor: default_ctor(), skip_setters: vec![], target_layout: std_layout(), naming_via_map_targets: false,
                         });
                         let mut v = Vec::new();
                         let o = run_case(&case, &mut v);
@@ -531,7 +534,7 @@ fn main() {
                 for (fam, pts, y) in targets {
                     for &alpha in &tw_alphas {
                         for intercept in [true, false] {
-                            tcases.push(Case::Tweedie(TwCase { family: fam.to_string(), x: pts.clone(), y: y.clone(), power: p, link: link.to_string(), alpha, intercept, tol: GTOL, max_iter: TW_MAX_ITER, n_rows: None, fit_layout: std_layout(), query_layout: std_layout(), float: f64_name(), setter_order: None, decoys: false, ctor: default_ctor(), builder_fit: false }));
+                            tcases.push(Case::Tweedie(TwCase { family: fam.to_string(), x: pts.clone(), y: y.clone(), power: p, link: link.to_string(), alpha, intercept, tol: GTOL, max_iter: TW_MAX_ITER, n_rows: None, fit_layout: std_layout(), query_layout: std_layout(), float: f64_name(), setter_order: None, decoys: false, ctor: default_ctor(), builder_fit: false, skip_setters: vec![], target_layout: std_layout() }));
                         }
                     }
                 }
@@ -551,7 +554,7 @@ fn main() {
                                 let mut y: Vec<f64> = (0..pts.len()).map(|i| if link == "logit" { 0.25 + 0.125 * i as f64 } else { 0.5 + i as f64 }).collect();
                                 y[pos] = bad;
                                 n_range += 1;
-                                tcases.push(Case::Tweedie(TwCase { family: fam.to_string(), x: pts.clone(), y, power: p, link: link.to_string(), alpha: 0.1, intercept, tol: GTOL, max_iter: TW_MAX_ITER, n_rows: None, fit_layout: std_layout(), query_layout: std_layout(), float: f64_name(), setter_order: None, decoys: false, ctor: default_ctor(), builder_fit: false }));
+                                tcases.push(Case::Tweedie(TwCase { family: fam.to_string(), x: pts.clone(), y, power: p, link: link.to_string(), alpha: 0.1, intercept, tol: GTOL, max_iter: TW_MAX_ITER, n_rows: None, fit_layout: std_layout(), query_layout: std_layout(), float: f64_name(), setter_order: None, decoys: false, ctor: default_ctor(), builder_fit: false, skip_setters: vec![], target_layout: std_layout() }));
                             }
                         }
                     }
@@ -611,6 +614,9 @@ fn main() {
         setter_order: None,
         decoys: false,
         ctor: default_ctor(),
+        skip_setters: vec![],
+        target_layout: std_layout(),
+        naming_via_map_targets: false,
     };
     let mk_multi = |fam: &str, pts: &Vec<Vec<f64>>, part: &Vec<u8>, k: usize, scale: f64, alpha: f64, intercept: bool| MultiCase {
         family: fam.to_string(),
@@ -634,6 +640,9 @@ fn main() {
         setter_order: None,
         decoys: false,
         ctor: default_ctor(),
+        skip_setters: vec![],
+        target_layout: std_layout(),
+        naming_via_map_targets: false,
     };
     let tw_pairs: [(f64, &str); 5] = [(0.0, "identity"), (1.0, "log"), (1.5, "log"), (2.0, "log"), (3.0, "logit")];
     let design_h1: Vec<Vec<f64>> = (0..5).map(|i| vec![i as f64 * 0.5]).collect();
@@ -655,6 +664,8 @@ fn main() {
         decoys: false,
         ctor: default_ctor(),
         builder_fit: false,
+        skip_setters: vec![],
+        target_layout: std_layout(),
     };
     let all_parts6: Vec<(usize, Vec<u8>)> = (2..=4usize).flat_map(|k| partitions(6, k).into_iter().map(move |p| (k, p))).collect();
     let tw_targets = |p: f64, link: &str, stride: usize| -> Vec<(&'static str, Vec<Vec<f64>>, Vec<f64>)> {
@@ -915,6 +926,140 @@ fn main() {
             }
         }
     }
+    // ---- (e) routing through the shared / core code: parameters left at their DEFAULT (every subset of the setters not
+    //      called at all, judged against the documented defaults), target arrays in non-standard layouts, label naming
+    //      through DatasetBase::map_targets, sub-unit feature scales, 4..9 features with a reversed feature axis ----
+    let mut n_routing = 0u64;
+    if want("harden") {
+        // (e1) unset parameters
+        let y_pos = vec![0.5, 1.0, 3.0, 1.0, 0.5];
+        for sub in 1..64u32 {
+            let skip: Vec<u8> = (0..6u8).filter(|s| sub >> s & 1 == 1).collect();
+            let pws: Vec<f64> = if skip.contains(&2) { vec![1.0] } else { powers.to_vec() };
+            for p in pws {
+                let mut c = mk_tw("1d", &design_h1, y_pos.clone(), p, "log", 0.1, false);
+                c.skip_setters = skip.clone();
+                hcases.push(Case::Tweedie(c));
+                n_routing += 1;
+            }
+        }
+        for sub in 1..32u32 {
+            let skip: Vec<u8> = (0..5u8).filter(|s| sub >> s & 1 == 1).collect();
+            for (fam, mask) in [("1d", 0b010110u32), ("2d", 0b101001)] {
+                let pts = &lat6.iter().find(|(f, _)| *f == fam).unwrap().1;
+                let mut c = mk_bin(fam, pts, mask, 1.0, 0.5, false);
+                c.gtol = 1e-5;
+                c.init = Some((0..pts[0].len()).map(|j| if j % 2 == 0 { 0.1 } else { -0.05 }).collect());
+                if skip.contains(&1) {
+                    // the intercept is then fitted: the given start vector needs its entry
+                    c.init.as_mut().unwrap().push(-0.2);
+                }
+                c.skip_setters = skip.clone();
+                hcases.push(Case::Binary(c));
+                n_routing += 1;
+            }
+            for (fam, k, part) in [("1d", 3usize, vec![0u8, 1, 2, 0, 1, 2]), ("2d", 4, vec![0, 0, 1, 1, 2, 3])] {
+                let pts = &lat6.iter().find(|(f, _)| *f == fam).unwrap().1;
+                let mut c = mk_multi(fam, pts, &part, k, 1.0, 0.5, false);
+                c.gtol = 1e-5;
+                let pz = pts[0].len() + skip.contains(&1) as usize;
+                c.init = Some((0..pz).map(|i| (0..k).map(|cc| (((i + 2 * cc) % 3) as f64 - 1.0) * 0.1).collect()).collect());
+                c.skip_setters = skip.clone();
+                hcases.push(Case::Multi(c));
+                n_routing += 1;
+            }
+        }
+        // (e2) target layouts x label naming through map_targets (x sub-unit feature scale)
+        let tvariants: Vec<(&str, bool)> = layout::TARGET_LAYOUTS.iter().flat_map(|l| [(*l, false), (*l, true)]).filter(|v| *v != ("standard", false)).collect();
+        let e_masks: Vec<u32> = ctx.pick(vec![0b010110u32, 0b101001, 0b000111], vec![0b010110u32, 0b101001, 0b000111, 0b001011, 0b110100, 0b011110]);
+        for (fam, pts) in lat6.iter().filter(|(f, _)| *f != "1d_doubled") {
+            for &mask in &e_masks {
+                for &scale in &[0.125, 1.0] {
+                    for &alpha in &[0.0, 1.0] {
+                        for intercept in [true, false] {
+                            for (tl, via) in &tvariants {
+                                for (lt, naming) in [("usize", 1u8), ("string", 0)] {
+                                    let mut c = mk_bin(fam, pts, mask, scale, alpha, intercept);
+                                    c.label_type = lt.to_string();
+                                    c.naming = naming;
+                                    c.target_layout = tl.to_string();
+                                    c.naming_via_map_targets = *via;
+                                    hcases.push(Case::Binary(c));
+                                    n_routing += 1;
+                                }
+                            }
+                        }
+                    }
+                }
+            }
+            for (i, (k, part)) in all_parts6.iter().enumerate() {
+                if i % ctx.pick(47usize, 11usize) != 1 {
+                    continue;
+                }
+                for &scale in &[0.125, 1.0] {
+                    for &alpha in &[0.01, 1.0] {
+                        for intercept in [true, false] {
+                            for (tl, via) in &tvariants {
+                                let mut c = mk_multi(fam, pts, part, *k, scale, alpha, intercept);
+                                c.target_layout = tl.to_string();
+                                c.naming_via_map_targets = *via;
+                                hcases.push(Case::Multi(c));
+                                n_routing += 1;
+                            }
+                        }
+                    }
+                }
+            }
+        }
+        for (p, link) in tw_pairs {
+            for (fam, pts, y) in tw_targets(p, link, ctx.pick(81usize, 27usize)) {
+                for &alpha in &[0.0, 1.0] {
+                    for intercept in [true, false] {
+                        for tl in &layout::TARGET_LAYOUTS[1..] {
+                            let mut c = mk_tw(fam, &pts, y.clone(), p, link, alpha, intercept);
+                            c.target_layout = tl.to_string();
+                            hcases.push(Case::Tweedie(c));
+                            n_routing += 1;
+                        }
+                    }
+                }
+            }
+        }
+        // (e3) 4, 5, 7, 9 features (12 samples, constant table), sub-unit scale, reversed feature axis
+        for &dd in &[4usize, 5, 7, 9] {
+            let wide: Vec<Vec<f64>> = (0..12usize).map(|i| (0..dd).map(|j| ((i * (j + 2) + j * j + i * i * (j % 3)) % 5) as f64).collect()).collect();
+            for &scale in &[0.125, 1.0] {
+                for &alpha in &[0.01, 1.0] {
+                    for intercept in [true, false] {
+                        for l in ["standard", "reversed_features_view", "fortran"] {
+                            for pat in 0..2usize {
+                                let mut c = mk_bin("wide", &wide, 0, scale, alpha, intercept);
+                                c.groups = (0..12usize).map(|i| if pat == 0 { (i % 2) as u8 } else { ((i / 3) % 2) as u8 }).collect();
+                                c.fit_layout = l.to_string();
+                                c.query_layout = l.to_string();
+                                hcases.push(Case::Binary(c));
+                                let (k, part): (usize, Vec<u8>) = if pat == 0 { (3, (0..12usize).map(|i| (i % 3) as u8).collect()) } else { (4, (0..12usize).map(|i| ((i * 5) % 4) as u8).collect()) };
+                                let mut c = mk_multi("wide", &wide, &part, k, scale, alpha, intercept);
+                                c.fit_layout = l.to_string();
+                                c.query_layout = l.to_string();
+                                hcases.push(Case::Multi(c));
+                                n_routing += 2;
+                            }
+                            for (p, link) in [(0.0, "identity"), (1.0, "log"), (2.0, "log")] {
+                                let xw: Vec<Vec<f64>> = wide.iter().map(|r| r.iter().map(|v| v * scale * 0.25).collect()).collect();
+                                let y: Vec<f64> = (0..12usize).map(|i| 0.5 + (i % 4) as f64 * 0.5).collect();
+                                let mut c = mk_tw("wide", &xw, y, p, link, alpha, intercept);
+                                c.fit_layout = l.to_string();
+                                c.query_layout = l.to_string();
+                                hcases.push(Case::Tweedie(c));
+                                n_routing += 1;
+                            }
+                        }
+                    }
+                }
+            }
+        }
+    }
     // deterministic interleaving, as for the Tweedie sweep (large and small cases mixed over the threads)
     {
         let n = hcases.len();
@@ -946,6 +1091,7 @@ fn main() {
     ctx.extra("hardening_large_n_cases_enumerated", json!(n_large));
     ctx.extra("hardening_f32_cases_enumerated", json!(n_f32));
     ctx.extra("hardening_builder_history_cases_enumerated", json!(n_builder));
+    ctx.extra("hardening_routing_cases_enumerated", json!(n_routing));
     ctx.extra("hardening_cases_run", json!(hard_done));
     ctx.extra("f32_case_child_largest_cpu_ms_of_a_returning_child", json!(MAX_CASE_CHILD_MS.load(std::sync::atomic::Ordering::Relaxed)));
     let t = tally.lock().unwrap();
